@@ -154,15 +154,18 @@ Print Assumptions C10_file_prefix_necessary.
    for chains of references of ANY length. *)
 From A1 Require Import Rt.WfAlias Rt.WfAliasProofs.
 
-(* -- a reference descriptor has the op table, the member table (same C object, same content) and the element count of
-      the type its chain ends in; its tag vectors are the X.680 tagging of that type's along the chain; and along hops
-      that do not re-constrain an INTEGER / REAL ([rigid]) also its specifics -- *)
+(* -- a reference descriptor has the op table, the member table (same C object, same content), the element count and
+      the representation facts of the type its chain ends in (its C type is a typedef of that type's); its tag vectors
+      are the X.680 tagging of that type's along the chain; its specifics are the SAME record for every kind but
+      INTEGER / REAL, and equal in content along hops that do not re-constrain an INTEGER / REAL ([rigid]) -- *)
 Theorem C10_alias_chain_invariant : forall X i j path, wf_x X = true -> reaches X i j path ->
   forall a xa, nthZ (t_descrs (xt_tab X)) i = Some a -> nthZ (xt_x X) i = Some xa ->
   exists t xt, nthZ (t_descrs (xt_tab X)) j = Some t /\ nthZ (xt_x X) j = Some xt
     /\ d_kind a = d_kind t /\ x_op xa = x_op xt /\ x_el xa = x_el xt /\ x_ec xa = x_ec xt /\ d_elems a = d_elems t
+    /\ x_rep xa = x_rep xt /\ int_width (d_spec a) = int_width (d_spec t)
     /\ d_tags a = chain_tags path (d_tags t) /\ d_all a = chain_all path (d_all t)
-    /\ (forallb (fun h => rigid h (d_kind t)) path = true -> x_sp xa = x_sp xt /\ d_spec a = d_spec t).
+    /\ (numeric_kind (d_kind t) = false -> x_sp xa = x_sp xt)
+    /\ (forallb (fun h => rigid h (d_kind t)) path = true -> d_spec a = d_spec t).
 Proof. exact alias_chain_invariant. Qed.
 Print Assumptions C10_alias_chain_invariant.
 
@@ -170,9 +173,10 @@ Print Assumptions C10_alias_chain_invariant.
 Theorem C10_alias_specifics_terminal : forall X i j path a xa t xt, wf_x X = true -> reaches X i j path -> terminal X j ->
   nthZ (t_descrs (xt_tab X)) i = Some a -> nthZ (xt_x X) i = Some xa ->
   nthZ (t_descrs (xt_tab X)) j = Some t -> nthZ (xt_x X) j = Some xt ->
-  forallb (fun h => rigid h (d_kind t)) path = true ->
-  x_sp xa = x_sp xt /\ d_spec a = d_spec t /\ x_op xa = x_op xt /\ d_kind a = d_kind t
-  /\ x_el xa = x_el xt /\ d_elems a = d_elems t.
+  x_op xa = x_op xt /\ d_kind a = d_kind t /\ x_el xa = x_el xt /\ d_elems a = d_elems t
+  /\ x_rep xa = x_rep xt /\ int_width (d_spec a) = int_width (d_spec t)
+  /\ (numeric_kind (d_kind t) = false -> x_sp xa = x_sp xt /\ d_spec a = d_spec t)
+  /\ (forallb (fun h => rigid h (d_kind t)) path = true -> d_spec a = d_spec t).
 Proof. exact alias_specifics_terminal. Qed.
 Print Assumptions C10_alias_specifics_terminal.
 
